@@ -18,7 +18,7 @@ class RequirementsTxtWriter(DependencyWriter):
             return None
 
         original_lines = lines.copy()
-        if not original_lines[-1].endswith("\n"):
+        if original_lines and not original_lines[-1].endswith("\n"):
             original_lines[-1] += "\n"
 
         requirement_lines = []
